@@ -319,6 +319,14 @@ def sessStep (s : S) (f : List String) : S × List String :=
     | (s, .ret _) => done s ["close ok"]
     | (s, .blocked) => done s ["blocked close"]
     | (s, .unsupported w) => (s, [s!"unsupported {w}"])
+  | ["disconnect", "quit"] =>
+    -- Disconnect with its quit signal given: deterministic only while another request holds the write lock (inside conn.Write)
+    if s.connSemClosed then done s ["disconnect closed"] else
+    if s.held.isNone || !s.closers.isEmpty || s.parkedDial || s.parkedHs.isSome then (s, ["unsupported quit races with the write lock"]) else
+    match s.closeCall "close" false with        -- as Close: the connection is closed under the writer, then the client is closed
+    | (s, .ret _) => done s ["disconnect canceled"]
+    | (s, .blocked) => done s ["blocked disconnect"]
+    | (s, .unsupported w) => (s, [s!"unsupported {w}"])
   | ["disconnect"] =>
     match s.closeCall "disconnect" true with
     | (s, .ret e) => if e.contains "unsupported" then (s, ["unsupported write gate"]) else done s [s!"disconnect {errStr e}"]
